@@ -68,7 +68,15 @@ inductive Cmp
 
 def compare (c : Ctx) (r : Run) : Cmp × Option (Except GenError Out) :=
   match c.module with
-  | none => (.notComparable "parse-error", none)
+  | none =>
+    -- naga's front end rejects the source: the whole function has to return the parse error (C17_parse); an Ok result means the
+    -- generator parsed something else than it was given
+    (match r.real with
+      | .err .parseError _ => .sameError "parse"
+      | .err e msg => .outcome s!"naga's front end rejects the source; real error {errClass e} {msg}"
+      | .ok _ => .outcome "naga's front end rejects the source; real ok"
+      | .okUndecodable _ => .outcome "naga's front end rejects the source; real ok"
+      | .panic msg => .outcome s!"naga's front end rejects the source; real panic: {msg}", none)
   | some m =>
     let mo := gen m r.opts c.src c.path
     let cmp := match mo, r.real with
